@@ -108,6 +108,10 @@ Definition MsgCloseConnectionResponse : N := 4.
    such predicate; the check determines by probing which one the code implements. *)
 Record config := mkConfig { has_handler : N -> bool; has_default : bool; never_reply : N -> bool }.
 
+(* the message types a Reader sends on its own — KeepAlive, ROAccessReport,
+   ReaderEventNotification: never the reply to a request, whatever message id they carry *)
+Definition reader_initiated (t : N) : bool := (t =? 61) || (t =? 62) || (t =? 63).
+
 (* a MessageHandler as far as the connection can tell: it reads k bytes of what it is offered
    (fewer if fewer are there) and then returns or panics *)
 (* the value a handler panics with: handleGuarded's recover() treats them all alike (it only
